@@ -94,6 +94,82 @@ def fields(line):
     return dict(kv.split("=", 1) for kv in line.split(";"))
 
 
+SRC_KIND = {"Int": "int", "UInt": "uint", "Float": "float", "Angle": "angle"}
+
+
+def decl(name, t):
+    """source declaration of a variable of abstract type `t` (None if the front end cannot declare it)"""
+    w = t.split()
+    k, const = w[0], w[-1] == "c"
+    if k in SRC_KIND:
+        if w[1] not in ("-", "8", "32", "64"):
+            return None
+        ty = SRC_KIND[k] + ("" if w[1] == "-" else f"[{w[1]}]")
+        init = "1"
+    elif k == "Complex":
+        if w[1] not in ("-", "32", "64"):
+            return None
+        ty = "complex" + ("" if w[1] == "-" else f"[float[{w[1]}]]")
+        init = "1"
+    elif k == "Bool":
+        ty, init = "bool", "true"
+    elif k == "Bit":
+        ty, init = "bit", '"1"'
+    elif k == "Duration":
+        ty, init = "duration", "1ns"
+    else:
+        return None
+    return (f"const {ty} {name} = {init};" if const else f"{ty} {name};")
+
+
+def program_level(ctx, F, idx, fail_prog):
+    """what programs get: the type of `a + b` (and of a chain `a + b + c`) in the semantic graph is what the
+    promotion functions answer for the operand types — the function under test is reached through
+    BinaryExpr::new_texpr_with_cast, not called directly"""
+    import re
+    from . import gen_text as G
+    from . import semapipe as SP
+    ts = [t for t in universe() if decl("a", t)]
+    progs, expect = [], []
+    for a in ts:
+        for b in ts:
+            f = F[idx[f"{a} | {b}"]]
+            if f is None:
+                continue
+            progs.append(decl("a", a) + "\n" + decl("b", b) + "\na + b;\n")
+            expect.append((f["Add"], None))
+    # chains: the type of the first pair (possibly Void) meets a third operand
+    third = [t for t in ts if t.split()[0] in ("Int", "Float", "Angle", "Bool") and t.split()[-1] == "n"][:8]
+    for a in ts[::3]:
+        for b in ts[::3]:
+            f = F[idx[f"{a} | {b}"]]
+            if f is None:
+                continue
+            for c in third:
+                g = F[idx.get(f"{f['Add']} | {c}", -1)] if f"{f['Add']} | {c}" in idx else None
+                if g is None:
+                    continue
+                progs.append(decl("a", a) + "\n" + decl("b", b) + "\n" + decl("c", c) + "\na + b + c;\n")
+                expect.append((g["Add"], f["Add"]))
+    recs, stats = SP.run(ctx, progs, tag="c20prog")
+    n = 0
+    for r, (want, inner) in zip(recs, expect):
+        o = r["impl"]
+        if not o.startswith("asg="):
+            continue
+        m = re.search(r"\(ExprStmt \(T (\S+) \(Bin Arith\.Add", o)
+        if not m:
+            continue
+        n += 1
+        got = m.group(1).replace("_", " ")
+        if got != want:
+            fail_prog(G.enc(r["text"]), "program_expression_type",
+                      {"program": r["text"], "expression_type": got, "promotion_says": want, "first_pair": inner},
+                      r["agree"] is True)
+    ctx.coverage["program_level_expressions"] = n
+    return n
+
+
 def check(ctx):
     tier = ctx.tier
     ok_proof = C.prove(ctx, ["Oq3.Props.C20"])
@@ -187,6 +263,9 @@ def check(ctx):
                     if unconst(l) != unconst(r):
                         i = idx[f"{a} | {b}"]
                         fail(i, "associative", f"c={c}: (a+b)+c={l} a+(b+c)={r}")
+    nprog = program_level(ctx, F, idx, fail_prog=lambda case, check, detail, agrees: failures.append(
+        {"case": case, "check": check, "detail": detail, "guards": set(), "model_agrees": agrees,
+         "replay_how": "the case is a program (hex code points): echo '<input>' | /verif/harness/target/debug/oq3-run sema"}))
     findings = C.load_findings("C20")
     # confirm each recorded witness still fails on the implementation
     for kf in findings:
